@@ -2,7 +2,7 @@
    Theorem-only file: every proof is `exact <lemma>`; Print Assumptions under each.
    Stage 1 of DESIGN.md section 5 (START/END, CELL, XYABSOLUTE/XYRELATIVE, RECTANGLE, POLYGON, PATH, TRAPEZOID x3,
    CTRAPEZOID, CIRCLE, TEXT, PLACEMENT x2, repetitions 0-11, modal variables with their reset at CELL). *)
-Require Import Base OasisInt OasisIntProofs OasisSpec OasisSpecProofs Generated.
+Require Import Base OasisInt OasisIntProofs OasisSpec OasisSpecProofs OasisDetect OasisDetectProofs Generated.
 Local Open Scope N_scope.
 
 (* tie (generated): record codes, repetition and point-list enumerations of today's source are the ones the
@@ -43,6 +43,19 @@ Print Assumptions ctrapezoid_table_wellformed_thm.
 Theorem ctrapezoid_table_all_types : forall ty, ty < 26 -> In (ty, spec_ctrap_vertices ty) spec_ctrap_table.
 Proof. exact ctrapezoid_table_complete. Qed.
 Print Assumptions ctrapezoid_table_all_types.
+
+(* ---- writer-side detection (model of is_rectangle / is_trapezoid of polygon.cpp, run against the C++ on every
+   check): whatever record Polygon::to_oas selects decodes, by the specification, to the same vertex cycle *)
+Theorem trapezoid_detection_sound : forall pts t l dt r,
+  is_trapezoid pts = Some t -> sizes_ok t ->
+  same_cycle (elem_points (trap_element l dt r t)) pts.
+Proof. exact trapezoid_detection_sound_lemma. Qed.
+Print Assumptions trapezoid_detection_sound.
+
+Theorem rectangle_detection_sound : forall pts cs l dt r,
+  is_rectangle pts = Some cs -> same_cycle (elem_points (rect_element l dt r cs)) pts.
+Proof. exact rectangle_detection_sound_lemma. Qed.
+Print Assumptions rectangle_detection_sound.
 
 (* ---- one theorem per record kind: whatever the choices (explicit field or modal variable for every info-byte
    bit, alternative forms, repetition re-use) and whatever the modal state, the strict decoder returns the
